@@ -45,6 +45,8 @@ pub struct Workload {
     pub probe: bool,
     /// budget (scheduler decisions) for which a thread doing a large write stays blocked
     pub stall_large_writes: Option<usize>,
+    /// scanner threads pull the next file instead of scanning a fixed share
+    pub dynamic_assignment: bool,
 }
 
 fn file_to_json(f: &FileRec) -> Value {
@@ -109,6 +111,7 @@ impl Workload {
             "flush_resets_first": self.flush_resets_first,
             "probe": self.probe,
             "stall_large_writes": self.stall_large_writes,
+            "dynamic_assignment": self.dynamic_assignment,
         })
     }
 
@@ -130,6 +133,7 @@ impl Workload {
             flush_resets_first: v["flush_resets_first"].as_bool().unwrap_or(false),
             probe: v["probe"].as_bool().unwrap_or(false),
             stall_large_writes: v["stall_large_writes"].as_u64().map(|x| x as usize),
+            dynamic_assignment: v["dynamic_assignment"].as_bool().unwrap_or(false),
         })
     }
 }
@@ -320,6 +324,7 @@ fn workload_inner(rng: &mut Rng, tier: Tier, volume: bool) -> Workload {
         flush_resets_first: rng.chance(1, 2),
         probe,
         stall_large_writes: None,
+        dynamic_assignment: rng.chance(1, 2),
     }
 }
 
@@ -436,6 +441,7 @@ fn knobs_for(w: &Workload, sequential: bool) -> Knobs {
             buffer_cap: w.buffer_cap,
             flush_resets_first: w.flush_resets_first,
             stall_large_writes: None,
+            dynamic_assignment: false,
         }
     } else {
         Knobs {
@@ -447,6 +453,7 @@ fn knobs_for(w: &Workload, sequential: bool) -> Knobs {
             buffer_cap: w.buffer_cap,
             flush_resets_first: w.flush_resets_first,
             stall_large_writes: w.stall_large_writes,
+            dynamic_assignment: w.dynamic_assignment,
         }
     }
 }
@@ -1297,7 +1304,7 @@ pub fn check(tier: Tier) -> i32 {
             return 2;
         }
     }
-    let runs = std::env::var("VERIF_RUNS").ok().and_then(|s| s.parse().ok()).unwrap_or(if tier == Tier::Quick { 40_000u64 } else { 2_000_000 });
+    let runs = std::env::var("VERIF_RUNS").ok().and_then(|s| s.parse().ok()).unwrap_or(if tier == Tier::Quick { 60_000u64 } else { 2_000_000 });
     let block = 250;
     let red = match coord::run_plan(&Plan { prop: ID, tier: tier.name().into(), seed, runs, block, workers: coord::workers() }) {
         Ok(r) => r,
@@ -1511,7 +1518,7 @@ fn selftest_workload(threads: usize, files: usize) -> Workload {
     for f in 0..files {
         partition[f % threads].push(f);
     }
-    Workload { expr: String::new(), files: fs, threads, partition, max_chunks: 1, chunk_seed: 1, hash_key: 1, buffer_cap: None, flush_resets_first: false, probe: false, stall_large_writes: None }
+    Workload { expr: String::new(), files: fs, threads, partition, max_chunks: 1, chunk_seed: 1, hash_key: 1, buffer_cap: None, flush_resets_first: false, probe: false, stall_large_writes: None, dynamic_assignment: false }
 }
 
 fn wrap_program(defs: &str, policy: &str) -> String {
